@@ -1,5 +1,6 @@
 import PvlModel.Lemmas.Num
 import PvlModel.Lemmas.Based
+import PvlModel.Lemmas.Radix
 import PvlModel.Model.Spec
 /-!
 # C03 — well-formed text decodes to the values the dialect grammar assigns
@@ -69,5 +70,69 @@ theorem C03_binary_literal (g : Grammar) (hg : g = Gen.pvl ∨ g = Gen.isis) (bi
 example : binVal [49, 48, 49, 49] 0 = 11 := by decide
 
 example : decodeSimple ⟨Gen.odl, .odl⟩ (intStr (-42)) = .ok (.int (-42)) := C03_int_literal _ (by simp) _
+
+
+open Py Enc
+
+theorem decodeSimple_of_nondecimal (d : Dec) (hs : RealSafe d.g = true) (c : Nat) (r : Str) (hc : RealHead c)
+    (v : Int) (h : decodeNonDecimal d (c :: r) = some v) : decodeSimple d (c :: r) = .ok (.int v) := by
+  simp only [RealSafe, NumSafe, Bool.and_eq_true, List.all_cons, List.all_nil, Bool.and_true] at hs
+  obtain ⟨⟨⟨hk1, hk2, hk3⟩, hq⟩, hq2⟩ := hs
+  unfold decodeSimple
+  rw [foldEq_head_real c _ _ hc hk1, foldEq_head_real c _ _ hc hk2, foldEq_head_real c _ _ hc hk3]
+  simp only [Bool.false_eq_true, if_false]
+  rw [decodeQuoted_head_real d c _ hc hq hq2, h]
+
+/-- **C03, ODL based integers**: `r#digits#`, `r#+digits#`, `r#-digits#` — every radix 2 to 16, every
+    non-empty string of digits of that radix (upper- or lower-case letters) — denote, under the ODL and PDS3
+    decoders, the positional value of the digits, negated after `-` -/
+theorem C03_based_literal_odl (d : Dec) (hk : d.kind = .odl ∨ d.kind = .pds) (hg : d.g = Gen.odl ∨ d.g = Gen.pds)
+    (b : Nat) (h2 : 2 ≤ b) (h16 : b ≤ 16) (ds : Str) (hd : ∀ c ∈ ds, DigitOf b c) (hne : ds ≠ [])
+    (sgt : Str) (hs : SignText sgt) :
+    decodeSimple d (radText b ++ 35 :: (sgt ++ ds ++ [35])) =
+      .ok (.int (if sgt = [45] then -(baseVal b ds 0 : Int) else (baseVal b ds 0 : Int))) := by
+  obtain ⟨_, h2', h3', _, _⟩ := realSafe_tables
+  have hsafe : RealSafe d.g = true := by rcases hg with h | h <;> rw [h] <;> assumption
+  have hpat : d.g.ndPattern = patOdlNd := by rcases hg with h | h <;> rw [h] <;> rfl
+  have hdec := decodeNonDecimal_odl d.g d.kind hk hpat b h2 h16 ds hd hne sgt hs
+  have hshape : ∃ c r, radText b ++ 35 :: (sgt ++ ds ++ [35]) = c :: r ∧ RealHead c := by
+    unfold radText
+    by_cases h : b < 10
+    · exact ⟨48 + b, 35 :: (sgt ++ ds ++ [35]), by simp [h], Or.inl (Or.inl (by simp [isDigit]; omega))⟩
+    · exact ⟨49, (48 + (b - 10)) :: 35 :: (sgt ++ ds ++ [35]), by simp [h], Or.inl (Or.inl (by decide))⟩
+  obtain ⟨c, r, he, hc⟩ := hshape
+  rw [he] at hdec ⊢
+  exact decodeSimple_of_nondecimal d hsafe c r hc _ (by cases d; exact hdec)
+
+/-- **C03, PVL based integers**: `2#…#`, `8#…#`, `16#…#`, with an optional sign in front of the radix,
+    under the PVL decoder with the PVL and ISIS tables -/
+theorem C03_based_literal_pvl (g : Grammar) (hg : g = Gen.pvl ∨ g = Gen.isis) (b : Nat) (hb : b = 2 ∨ b = 8 ∨ b = 16)
+    (ds : Str) (hd : ∀ c ∈ ds, DigitOf b c) (hne : ds ≠ []) (sgt : Str) (hs : SignText sgt) :
+    decodeSimple ⟨g, .pvl⟩ (sgt ++ radTextPvl b ++ 35 :: (ds ++ [35])) =
+      .ok (.int (if sgt = [45] then -(baseVal b ds 0 : Int) else (baseVal b ds 0 : Int))) := by
+  obtain ⟨h1', _, _, h4', _⟩ := realSafe_tables
+  have hsafe : RealSafe g = true := by rcases hg with h | h <;> rw [h] <;> assumption
+  have hp1 : g.binPattern = patBin := by rcases hg with h | h <;> rw [h] <;> rfl
+  have hp2 : g.octPattern = patOct := by rcases hg with h | h <;> rw [h] <;> rfl
+  have hp3 : g.hexPattern = patHex := by rcases hg with h | h <;> rw [h] <;> rfl
+  have hdec := decodeNonDecimal_pvl g hp1 hp2 hp3 b hb ds hd hne sgt hs
+  have hshape : ∃ c r, sgt ++ radTextPvl b ++ 35 :: (ds ++ [35]) = c :: r ∧ RealHead c := by
+    unfold radTextPvl
+    rcases hs with rfl | rfl | rfl
+    · rcases hb with rfl | rfl | rfl
+      · exact ⟨50, 35 :: (ds ++ [35]), by simp, Or.inl (Or.inl (by decide))⟩
+      · exact ⟨56, 35 :: (ds ++ [35]), by simp, Or.inl (Or.inl (by decide))⟩
+      · exact ⟨49, 54 :: 35 :: (ds ++ [35]), by simp, Or.inl (Or.inl (by decide))⟩
+    · exact ⟨43, _, rfl, Or.inr (Or.inl rfl)⟩
+    · exact ⟨45, _, rfl, Or.inl (Or.inr rfl)⟩
+  obtain ⟨c, r, he, hc⟩ := hshape
+  rw [he] at hdec ⊢
+  exact decodeSimple_of_nondecimal ⟨g, .pvl⟩ hsafe c r hc _ hdec
+
+/-- the hypotheses are met: `F`, `f`, `9` are digits of base 16, `7` of base 8 but `8` is not -/
+example : DigitOf 16 70 ∧ DigitOf 16 102 ∧ DigitOf 16 57 ∧ DigitOf 8 55 ∧ ¬ DigitOf 8 56 := by
+  simp [DigitOf, isHex, digitValue]
+example : baseVal 16 [70, 102] 0 = 255 := by decide
+
 
 end Pvl
